@@ -219,6 +219,7 @@ PROPS = {
             '(c) to_input keeps exactly the non-trivia kinds, in order; a token is marked joint iff the very next raw token is not trivia (or it is a float not ending in `.`); the input is well formed and EOF-free',
             '(d) Parser::eat(K) advances by exactly 2 / 3 raw tokens for the composite kinds and only when the pieces are present and glued, 1 otherwise; do_bump is the only writer of pos; the Token event carries that count',
             '(f) Builder: do_token emits exactly one Token step carrying the text of the next n raw tokens; eat_trivias emits every pending trivia token in place; the Token steps handed to the sink cover the raw tokens [0, pos) consecutively (invariant preserved by token / exit / eat_trivias / do_token)',
+            '(g) the SourceFile entry point returns with the cursor at the end of the input: every non-trivia token was consumed (postcondition of entry::top::source_file; source_file_contents stops only at EOF, or at `}` when asked to)',
             'intersperse_trivia (D18): every step of the parser output reaches the builder in order; the Token steps handed to the sink are exactly the raw tokens [0, q) of the table with q the position the Token steps lead to (each consumes the pending trivia and exactly its n_input_tokens raw tokens); the `unreachable!` arms are proved from the assumed shape of the output (Enter first, Exit last, no FloatSplit)',
             'both parse entry points lex exactly the text they were given and hand the tree builder the token table and the parser output of that same text (unit SYNX; the builder itself is trusted)',
         ],
@@ -226,7 +227,6 @@ PROPS = {
             '(e) Output encode/decode identity is decided in the thorough tier only (Kani, full domain for one event)',
             'Builder::enter (iterator chain, n_attached_trivias): trusted to emit only pending trivia and the Enter step',
             'event::process keeps the order of Token events; rowan GreenNodeBuilder turns balanced Enter/Token/Exit streams into a tree whose text is the concatenation (external crate)',
-            '(g) the parser consumes all non-trivia tokens (source_file exits its loop only at EOF: proved as loop exit condition, not stated as a postcondition)',
         ],
         explanation='Verus: token accounting chain lexer -> LexedStr -> Input -> parser events -> Builder; Kani (thorough): Output encode/decode.',
         kani=True,
